@@ -23,8 +23,8 @@ var c11Triples = [][3]string{{"${", "}", ":"}, {"#{", "}", "|"}, {"<<", ">>", ":
 
 // length bound of the exhaustive token stream per triple (quick / thorough)
 var (
-	c11MaxLenQuick    = []int{7, 6, 6, 6, 6, 6, 5, 5}
-	c11MaxLenThorough = []int{9, 8, 7, 7, 7, 7, 7, 7}
+	c11MaxLenQuick    = []int{7, 6, 6, 6, 5, 5, 5, 5}
+	c11MaxLenThorough = []int{9, 8, 7, 7, 7, 7, 6, 6}
 )
 
 type c11Out struct {
